@@ -58,9 +58,10 @@ impl RawConnector {
         // Adjusts to a multiple of SIMD_SIZE for AVX2 compatibility.
         //
         // In nightly: feat_template_size = feat_template_size.next_multiple_of(SIMD_SIZE);
-        if feat_template_size != 0 {
-            feat_template_size = ((feat_template_size - 1) / SIMD_SIZE + 1) * SIMD_SIZE;
-        }
+        //
+        // At least one block is always allocated so that a model without any feature
+        // (i.e., only BOS/EOS exists) is also represented.
+        feat_template_size = ((feat_template_size.max(1) - 1) / SIMD_SIZE + 1) * SIMD_SIZE;
 
         // Converts a vector of N vectors into a matrix of size (N+1)*M,
         // where M is the maximum length of a vector in the N vectors.
